@@ -312,4 +312,69 @@ Fixpoint counts_loop (gr cu : list PRC) (ncat : nat) (lps : list LinkPoint) (sg 
 Definition counts_ok (p : Path) : bool :=
   counts_loop (p_grades p) (p_curves p) (length (p_cats p)) (p_link_points p) 0 0 0.
 
+(* ------------------------------------------------------------------ PathTpc::clear(offset_back)
+   Drops the links that lie wholly behind [offset_back]: the link points before the last one whose
+   successor still starts before offset_back, and with them exactly as many grades / curves / catenary
+   sections as those links contributed (LinkPoint::add_counts accumulates the three counts), and the speed
+   points before the new first link point; the first speed point is moved to the new first offset.
+   Err 1501 / 1502: offset_back outside [first, last] link offset.  Panic 1503: indexing past the link
+   points, 1504: past the speed points, 1505: first_mut().unwrap() on no speed point. *)
+Definition add_counts (a b : LinkPoint) : LinkPoint :=
+  {| lp_offset := lp_offset a; lp_grade_count := lp_grade_count a + lp_grade_count b;
+     lp_curve_count := lp_curve_count a + lp_curve_count b; lp_cat_count := lp_cat_count a + lp_cat_count b;
+     lp_link_idx := lp_link_idx a |}.
+
+(* while link_points[idx + 1].offset < offset_back { del.add_counts(&link_points[idx]); idx += 1 } *)
+Fixpoint clear_scan (fuel : nat) (lps : list LinkPoint) (x : F) (del : LinkPoint) (idx : nat)
+  : res (LinkPoint * nat) :=
+  match fuel with
+  | O => Panic 1503
+  | S f =>
+      match nth_error lps (S idx) with
+      | None => Panic 1503
+      | Some nx =>
+          if lp_offset nx <? x then
+            match nth_error lps idx with
+            | Some cur => clear_scan f lps x (add_counts del cur) (S idx)
+            | None => Panic 1503
+            end
+          else Ok (del, idx)
+      end
+  end.
+
+(* while speed_points[speed_count].offset < link_points[idx].offset { speed_count += 1 } *)
+Fixpoint speed_scan (sps : list (pt (F:=F))) (o : F) (k : nat) : res nat :=
+  match sps with
+  | [] => Panic 1504
+  | q :: t => if fst q <? o then speed_scan t o (S k) else Ok k
+  end.
+
+Definition clear (p : Path) (x : F) : res (Path * LinkPoint) :=
+  match p_link_points p with
+  | [] => Panic 1503
+  | first :: _ =>
+    let? _ := ensure (lp_offset first <=? x) 1501 in
+    let? _ := ensure (x <=? lp_offset (last (p_link_points p) lp_default)) 1502 in
+    let? (del, idx) := clear_scan (length (p_link_points p)) (p_link_points p) x lp_default 0 in
+    match idx with
+    | O => Ok (p, del)
+    | S _ =>
+      match nth_error (p_link_points p) idx with
+      | None => Panic 1503
+      | Some nf =>
+        let? k := speed_scan (p_speed_points p) (lp_offset nf) 0 in
+        match skipn k (p_speed_points p) with
+        | [] => Panic 1505
+        | q :: t =>
+          Ok ({| p_link_points := skipn idx (p_link_points p);
+                 p_grades := skipn (lp_grade_count del) (p_grades p);
+                 p_curves := skipn (lp_curve_count del) (p_curves p);
+                 p_speed_points := (lp_offset nf, snd q) :: t;
+                 p_cats := skipn (lp_cat_count del) (p_cats p);
+                 p_tp := p_tp p; p_finished := p_finished p |}, del)
+        end
+      end
+    end
+  end.
+
 End PathGeom.
